@@ -164,11 +164,61 @@ def CANDIDATES(namespace, search_path):
 
 contract(L + 'CANDIDATES', params={'namespace': 'any', 'search_path': 'list'}, returns='list[Candidate]',
          pure_keys=['namespace', 'search_path'], trusted=True)
-contract('c:enumerate_namespace_versions', params={'namespace': 'any', 'search_path': 'list'}, returns='list[Candidate]?',
-         trusted=True,
-         ensures={'is_candidates': 'implies(len(CANDIDATES(namespace, search_path)) > 0, result is CANDIDATES(namespace, search_path))',
-                  'null_when_none': 'implies(len(CANDIDATES(namespace, search_path)) == 0, result is None)'},
-         note='directory enumeration (g_dir_open / g_dir_read_name / g_hash_table) is not modelled; an empty GSList is NULL')
+# ---- directory enumeration: which files become candidates ---------------------------------------------------------------
+class GDir(object): pass
+
+
+UNIVERSE.register(GDir)
+_asn(_sys.modules[__name__])
+for _n, _p in (('g_hash_table_new', {'hash_func': 'any', 'key_equal_func': 'any'}), ('g_hash_table_lookup', {'table': 'any', 'key': 'any'}),
+               ('g_hash_table_add', {'table': 'any', 'key': 'any'}), ('g_hash_table_destroy', {'table': 'any'}),
+               ('g_dir_close', {'dir': 'any'}), ('g_str_hash', {'v': 'any'})):
+    contract('c:' + _n, params=_p, returns='any', trusted=True)
+contract('c:g_dir_open', params={'path': 'any', 'flags': 'int', 'error': 'any'}, returns='GDir?', fresh_result=True, trusted=True,
+         note='NULL when the directory cannot be opened')
+contract('c:g_dir_read_name', params={'dir': 'GDir'}, returns='any', trusted=True,
+         note='the next entry name of the directory, NULL at the end (the set and order of entries are not modelled)')
+contract('c:g_str_has_suffix', params={'str': 'any', 'suffix': 'any'}, returns='int', trusted=True,
+         ensures={'suffix': '(result != 0) == CSTR(str).endswith(CSTR(suffix))'})
+contract('c:g_str_has_prefix', params={'str': 'any', 'prefix': 'any'}, returns='int', trusted=True,
+         ensures={'prefix': '(result != 0) == CSTR(str).startswith(CSTR(prefix))'})
+
+contract('c:strrchr', params={'s': 'any', 'c': 'int'}, returns='int', pure_keys=['s', 'c'], trusted=True,
+         note='address of the last occurrence (an integer; only used in pointer arithmetic handed to g_strndup)')
+contract('c:strchr', params={'s': 'any', 'c': 'int'}, returns='int', pure_keys=['s', 'c'], trusted=True)
+contract('c:strncmp', params={'a': 'any', 'b': 'any', 'n': 'int'}, returns='int', pure_keys=['a', 'b', 'n'], trusted=True)
+contract('c:strlen', params={'s': 'any'}, returns='int', pure_keys=['s'], trusted=True, ensures={'len': 'result == len(CSTR(s))'})
+contract('c:g_strndup', params={'str': 'any', 'n': 'int'}, returns='any', pure_keys=['str', 'n'], trusted=True)
+contract('c:g_slist_prepend', params={'list': 'any', 'data': 'any'}, returns='any', trusted=True,
+         note='a GSList with data in front (list structure not needed for the clauses below)')
+from givc.contracts import REGISTRY as _R17   # noqa
+_R17.get('c:g_strdup_printf').ensures['dash'] = "implies(format == '%s-', CSTR(result) == CSTR(a1) + CSTR('-'))"
+_R17.get('c:g_strdup_printf').ensures['typelib'] = "implies(format == '%s.typelib', CSTR(result) == CSTR(a1) + '.typelib')"
+
+CAND_SITE = ("CSTR(local_entry).startswith(CSTR(namespace) + CSTR('-')) and CSTR(local_entry).endswith(CSTR('.typelib'))")
+contract('c:enumerate_namespace_versions', cfile=CF, params={'namespace': 'any', 'search_path': 'list'}, returns='any',
+         props=('C17',), modifies=[],
+         loops={1: {'index': 'I1', 'modifies': ['error.val'],
+                    'var_types': {'index': 'int', 'dirname': 'any', 'dir': 'GDir?', 'entry': 'any', 'candidates': 'any'},
+                    'invariant': ['index >= 0']},
+                2: {'modifies': ['error.val'],
+                    'var_types': {'entry': 'any', 'candidates': 'any', 'mfile': 'GMappedFile?', 'path': 'any', 'version': 'any',
+                                  'candidate': 'Candidate', 'last_dash': 'int', 'name_end': 'int'},
+                    'invariant': ['index >= 0']}},
+         ensures={
+             'C17.enumerate.only_files_named_namespace_dash_version_typelib_are_candidates':
+                 "all_calls('c:g_slist_prepend', '%s')" % CAND_SITE.replace("'", "\\'"),
+             'C17.enumerate.only_such_files_are_mapped':
+                 "all_calls('c:g_mapped_file_new', '%s')" % CAND_SITE.replace("'", "\\'"),
+             'C17.enumerate.candidate_is_the_mapped_file_of_that_directory_entry':
+                 "all_calls('c:g_slist_prepend', 'arg_data is local_candidate and local_path is PATH(local_dirname, local_entry) and "
+                 "local_mfile is FILE(local_path)')",
+         },
+         assume_ensures={'is_candidates': 'implies(len(CANDIDATES(namespace, search_path)) > 0, result is CANDIDATES(namespace, search_path))',
+                         'null_when_none': 'implies(len(CANDIDATES(namespace, search_path)) == 0, result is None)'},
+         note='which directory entries become candidates is proved (call discipline); the resulting GSList is only named '
+              '(CANDIDATES): the set and order of directory entries, the version text cut out by strrchr / g_strndup and the '
+              'hash table of versions already seen are not modelled')
 contract('c:g_slist_sort', params={'list': 'list[Candidate]', 'compare_func': 'any'}, returns='list[Candidate]', trusted=True,
          fresh_result=False,
          ensures={'same_length': 'len(result) == len(list)',
